@@ -1060,7 +1060,9 @@ def _searchsorted(ex, st, args, kwargs, node):
         raise Unsupported('searchsorted with array of values')
     n = a.shape[0]
     if 'sorted' in ex.safety:
-        ex.oblige('safe.sorted', st, c.Forall(0, _minus1(n), lambda i: a.elem((i,)) <= a.elem((i + 1,))), node)
+        srt = c.Forall(0, _minus1(n), lambda i: a.elem((i,)) <= a.elem((i + 1,)))
+        ex.oblige('safe.sorted', st, srt, node)
+        st.assume(srt)          # assert-then-assume: proved as its own obligation, a fact for everything that follows
     r = c.fresh('ss', INT)
     v = to_real(v) if a.kind == 'real' else v
     lt = (lambda x: x < v) if side == 'left' else (lambda x: x <= v)
@@ -1072,6 +1074,23 @@ def _searchsorted(ex, st, args, kwargs, node):
 
 
 # ----------------------------------------------------------------------------- builtins
+@model('builtins.sorted')
+def _sorted(ex, st, args, kwargs, node):
+    """sorted() of a short list of numbers: concrete lists are sorted, two symbolic numbers become [min, max]"""
+    v = args[0]
+    items = list(st.get(v).items) if isinstance(v, Ref) and isinstance(st.get(v), PyList) else (list(v) if isinstance(v, tuple) else None)
+    if items is None or kwargs:
+        raise Unsupported('sorted() form')
+    if all(isinstance(x, (int, float)) for x in items):
+        return st.alloc(ex.c, PyList(sorted(items)))
+    if len(items) == 2 and all(isinstance(x, (int, float)) or is_sym(x) for x in items):
+        a, b = (to_real(x) for x in items)
+        return st.alloc(ex.c, PyList([z3.If(a <= b, a, b), z3.If(a <= b, b, a)]))
+    if len(items) <= 1:
+        return st.alloc(ex.c, PyList(items))
+    raise Unsupported('sorted() of %d symbolic values' % len(items))
+
+
 @model('builtins.len')
 def _len(ex, st, args, kwargs, node):
     v = args[0]
